@@ -139,6 +139,14 @@ func Content(class string, seed int64, fileIdx, n, sliceSize int) []byte {
 			copy(b[2*sliceSize:3*sliceSize], b[0:sliceSize])
 		}
 		return b
+	case "trailzero2":
+		// only the last two bytes are zero: a last slice of 3 or more bytes keeps a non-zero head, so it is found nowhere
+		// but at its own place - also after the zero bytes have been cut off (the padding stands in for them)
+		b := Content("uniq", seed, fileIdx, n, sliceSize)
+		for i := n - 2; i < n && i >= 1; i++ {
+			b[i] = 0
+		}
+		return b
 	case "trailzero":
 		b := Content("uniq", seed, fileIdx, n, sliceSize)
 		z := sliceSize
